@@ -113,7 +113,9 @@ def run_case(task):
                 if not v['inputs'] and v['kind'] != 'assert': continue
                 lines = run_native(native, ob['entry'], v['inputs'], case, scratch, 'cex')
                 v['native'] = lines[-12:]
-                if v['kind'] == 'assert':
+                if v['kind'] == 'assert' and 'writes to pre-existing objects' in v['detail']:
+                    v['reproduced'] = None        # write-set assertions are only observable in the executor (the native twin records no stores)
+                elif v['kind'] == 'assert':
                     v['reproduced'] = ('assert %s 0' % v['what']) in lines
                 elif v['kind'] == 'memory':
                     v['reproduced'] = None        # native run cannot confirm out-of-bounds accesses without a sanitizer
